@@ -55,8 +55,12 @@ def check (st : St) (op obs : String) : St × String :=
     let before := st.window
     let st := { st with window := [], before := before, pending := some (op, obs) }
     if obs == "timeout" then
-      (st, if path == "/export" && st.haltOut then "ok" else s!"FAIL request got no response within the time-out: {op.take 100}")
-    else if !obs.startsWith "status=" then (st, s!"FAIL request got no HTTP response ({obs.take 60}): {op.take 100}") else
+      -- export and import wait for locks that a granted halt lock holds until it is released or expires
+      (st, if (path == "/export" || path == "/import") && st.haltOut then "ok" else s!"FAIL request got no response within the time-out: {op.take 100}")
+    else if !obs.startsWith "status=" then (st, s!"FAIL request got no HTTP response ({obs.take 60}): {op.take 100}")
+    else if (words obs).contains "PANIC" then (st, s!"FAIL a handler panicked while serving: {op.take 100}")
+    else if path == "/stream" && method == "POST" && obs.startsWith "status=200" && !(words obs).contains "ready" then
+      (st, s!"FAIL a stream answered 200 but broke before its ready frame: {op.take 100}") else
     let code := statusOf obs
     let st := if path == "/halt" && method == "POST" && code == 200 then { st with haltOut := true }
               else if path == "/halt" && method == "DELETE" && code == 200 then { st with haltOut := false } else st
